@@ -311,7 +311,23 @@ def run_body(body: List[ast.stmt], c: Ctx, depth: int) -> bool:
             c.ret = _num(ev(st.value, c, depth)) if st.value is not None else None
             return True
         if isinstance(st, ast.If):
-            v3 = eval3(st.test, c.assume)
+            if "__rank__" in c.assume:
+                # scenario supplied by the rule (arrays of rank > 0 / 0-d arrays): it answers every `<x>.ndim` / `<x>.size` truth test, also
+                # inside and/or/not (`if not mask.ndim and equal:` is the normal form of `if mask.ndim: pass / elif equal:`)
+                asm = dict(c.assume)
+                for x_ in ast.walk(st.test):
+                    if isinstance(x_, ast.Attribute) and x_.attr in ("ndim", "size"):
+                        asm.setdefault(norm(x_), c.assume["__rank__"])
+                v3 = eval3(st.test, asm)
+                if v3 is U3 and isinstance(st.test, ast.BoolOp):
+                    # drop the operands the scenario decides: the residual test is what remains symbolic
+                    keep = [v_ for v_ in st.test.values if eval3(v_, asm) is U3]
+                    if keep and len(keep) < len(st.test.values):
+                        import copy as _cp
+                        st = _cp.copy(st)
+                        st.test = keep[0] if len(keep) == 1 else ast.BoolOp(op=st.test.op, values=keep)
+            else:
+                v3 = eval3(st.test, c.assume)
             if v3 is U3 and isinstance(st.test, ast.Attribute) and st.test.attr in ("ndim", "size") and "__rank__" in c.assume:
                 v3 = c.assume["__rank__"]  # scenario supplied by the rule: arrays of rank > 0 / 0-d arrays
             if v3 is U3:
